@@ -35,8 +35,16 @@ def validator_loop(ctx):
     fld = inner[0].target.id
     t = trys[0]
     env = {'_row': row, '_f': fld}
-    ok = len(t.body) == 1 and (match_stmt('_row[_f.name] = _f.cast_value(_row.get(_f.name))', t.body[0], env) is not None or
-                               match_stmt('_row[_f.name] = _f.cast_value(_row[_f.name])', t.body[0], env) is not None)
+    ok = len(t.body) == 1 and isinstance(t.body[0], ast.Assign) and isinstance(t.body[0].targets[0], ast.Subscript)
+    if ok:
+        # locals of the loop body (name = field.name) stand for what they were bound to
+        tgt_ = ast.Subscript(value=t.body[0].targets[0].value, slice=resolve_here(t.body[0].targets[0].slice), ctx=ast.Load())
+        val_ = resolve_here(t.body[0].value)
+        for _ in range(2):
+            val_ = resolve_here(val_)
+        ok = match_expr('_row[_f.name]', tgt_, env) is not None and \
+            (match_expr('_f.cast_value(_row.get(_f.name))', val_, env) is not None or
+             match_expr('_f.cast_value(_row[_f.name])', val_, env) is not None)
     run.check(ok, 'VAL', where(repo, t), sv.qualname, 'row[field.name] = field.cast_value(row.get(field.name))',
               'the cast value is not stored under the name of the field it was read from')
     ok = len(t.handlers) == 1 and t.handlers[0].type is not None and u(t.handlers[0].type) == 'CastError' and t.handlers[0].name \
@@ -57,6 +65,7 @@ def validator_loop(ctx):
         flag = st.test.id if ok else None
     run.check(ok, 'VAL', where(repo, outer), sv.qualname, 'if <flag>: yield row (after all fields)',
               'rows are dropped / emitted on a condition other than "no handler said drop"')
+    hname = None
     if flag is None:
         return
     sets = [n for n in outer.body if match_stmt('%s = True' % flag, n) is not None]
@@ -67,8 +76,9 @@ def validator_loop(ctx):
         cond = clears[0]._parent
         test = resolve_here(cond.test) if isinstance(cond, ast.If) else None
         ok = isinstance(cond, ast.If) and not cond.orelse and any(cond is x for h_ in [hd] for x in ast.walk(h_))
-        b = match_expr('not on_error(__NAME, _row, _i, _e, _f)', test, {'_row': row, '_i': idx, '_e': e, '_f': fld}) if ok else None
+        b = match_expr('not _h(__NAME, _row, _i, _e, _f)', test, {'_row': row, '_i': idx, '_e': e, '_f': fld}) if ok else None
         ok = b is not None and "['name']" in u(b['__NAME'])
+        hname = b['_h'] if b is not None else None
         # nothing else happens in the handler
         other = [x for x in ast.walk(hd) if isinstance(x, (ast.Continue, ast.Break, ast.Return, ast.Raise))]
         ok = ok and not other
@@ -84,7 +94,23 @@ def validator_loop(ctx):
         fn[0][1]['_fn'] == sv.params[2]
     run.check(ok, 'VAL', sv.where, sv.qualname, 'checked fields = schema fields whose name is requested (default: all)',
               'the set of checked fields is not exactly the requested fields')
-    ok = has_stmt('if on_error is None:\n    on_error = raise_exception', sv.node) and has_stmt('on_error = wrap_handler(on_error)', sv.node)
+    # the handler that is asked: wrap_handler(<the on_error argument, raise_exception when it is None>), bound before the loop
+    pol_p = sv.params[3] if len(sv.params) > 3 else 'on_error'
+    ok = hname == pol_p and has_stmt('if %s is None:\n    %s = raise_exception' % (pol_p, pol_p), sv.node) and \
+        has_stmt('%s = wrap_handler(%s)' % (pol_p, pol_p), sv.node)
+    if not ok and hname:
+        binds_ = [a_.value for a_ in own_nodes(sv.node) if isinstance(a_, ast.Assign) and pseudo(a_.targets[0]) == hname]
+        if len(binds_) == 1:
+            b_ = match_expr('wrap_handler(__H)', binds_[0])
+            h_ = b_['__H'] if b_ is not None else None
+            if isinstance(h_, ast.IfExp):
+                from sa.model import norm_compare as _ncv
+                t_, p_ = _ncv(h_.test, True)
+                if match_expr('%s is None' % pol_p, t_) is not None:
+                    dflt_, given_ = (h_.body, h_.orelse) if p_ else (h_.orelse, h_.body)
+                    ok = u(dflt_) == 'raise_exception' and u(given_) == pol_p
+            elif h_ is not None and u(h_) == pol_p:
+                ok = has_stmt('if %s is None:\n    %s = raise_exception' % (pol_p, pol_p), sv.node)
     run.check(ok, 'VAL', sv.where, sv.qualname, 'default policy raise; handler wrapped', 'the default policy is not raise')
 
 
@@ -168,7 +194,10 @@ def set_type_validate(ctx):
     ok_pol = ok_names = ok_tr = True
     seen_tr = set()
     n_val = 0
+    from sa.model import infeasible_by_values
     for p_ in _En(where=prn.qualname).body_paths(rloops[0]):
+        if infeasible_by_values(p_):
+            continue        # names = [] ... if names: - a path that cannot be taken
         pv = PathValues(p_)
         ys = []
         for it_ in p_.items:
@@ -245,7 +274,10 @@ def set_type_validate(ctx):
                         hit = pol
                 nodes = list(path_nodes(p_))
                 upd = [c for c in nodes if match_expr('%s.update(self.options)' % fvar, c) is not None]
-                rec = [c for c in nodes if match_expr("self.field_names.setdefault(%s['name'], []).append(%s['name'])" % (rvar, fvar), c) is not None]
+                def _rh2(e_):
+                    return stream.subst_once(pdn.node, e_)
+                rec = [c for c in nodes if isinstance(c, ast.Call) and isinstance(c.func, ast.Attribute) and c.func.attr == 'append' and
+                       match_expr("self.field_names.setdefault(%s['name'], []).append(%s['name'])" % (rvar, fvar), _rh2(c)) is not None]
                 other_upd = [c for c in nodes if isinstance(c, ast.Call) and isinstance(c.func, ast.Attribute) and c.func.attr == 'update'
                              and c not in upd]
                 if hit is None:
@@ -260,7 +292,8 @@ def set_type_validate(ctx):
             sel = False
             for p_ in _En(where=pdn.qualname).body_paths(outer_l[0]):
                 reaches = any(it_.kind == 'loop' and it_.node is inner_l[0] for it_ in p_.items)
-                m_ = [pol for t, pol in [norm_compare(t_, pol_) for t_, pol_ in p_.guards()]
+                from sa.pathvals import PathValues as _PVm
+                m_ = [pol for t, pol in [norm_compare(t_, pol_) for t_, pol_ in _PVm(p_).guards]
                       if match_expr("self.matcher.match(%s['name'])" % rvar, t) is not None]
                 if reaches:
                     sel = bool(m_) and all(m_)
@@ -284,8 +317,43 @@ def set_type_validate(ctx):
     # validate
     va = repo.cls('dataflows.processors.validate:validate')
     vi = va.methods['__init__']
-    run.check(has_stmt('self.on_error = wrap_handler(on_error)', vi.node) and has_stmt('if on_error is None:\n    on_error = raise_exception', vi.node), 'R20', vi.where,
-              vi.qualname, 'default raise, wrapped once', 'validate does not default to raise / wrap the handler')
+    # on every path self.on_error = wrap_handler(<raise_exception where on_error is None, on_error otherwise>), whatever the spelling
+    from sa.pathvals import PathValues as _PVv
+    vin = ctx.N(vi)
+    okv, kinds_v = True, set()
+    for p_ in Enumerator(where=vi.qualname).paths(vin.node.body):
+        pv_ = _PVv(p_)
+        sets_ = [c_ for o_, c_ in pv_.stmts if isinstance(c_, ast.Assign) and pseudo(o_.targets[0]) == 'self.on_error']
+        sets_ += [ast.Assign(targets=[ast.Name(id='_', ctx=ast.Store())], value=pv_.env['self.on_error'])] if 'self.on_error' in pv_.env else []
+        if len(sets_) != 1:
+            okv = False
+            continue
+        v_ = sets_[0].value
+        b_ = match_expr('wrap_handler(__H)', v_)
+        if b_ is None:
+            okv = False
+            continue
+        none_ = None
+        for t_, pol_ in pv_.guards:
+            t_, pol_ = norm_compare(t_, pol_)
+            if match_expr('on_error is None', t_) is not None:
+                none_ = pol_
+        h_ = b_['__H']
+        cases_ = [(none_, h_)]
+        if isinstance(h_, ast.IfExp):
+            t_, pol_ = norm_compare(h_.test, True)
+            if match_expr('on_error is None', t_) is not None:
+                cases_ = [(pol_, h_.body), (not pol_, h_.orelse)]
+        for is_none, e_ in cases_:
+            if is_none is True:
+                okv = okv and u(e_) == 'raise_exception'
+            elif is_none is False:
+                okv = okv and u(e_) == 'on_error'
+            else:
+                okv = False
+            kinds_v.add(is_none)
+    run.check(okv and kinds_v == {True, False}, 'R20', vi.where, vi.qualname, 'default raise, wrapped once',
+              'validate does not default to raise / wrap the handler')
     va_cls = repo.cls('dataflows.processors.validate:validate')
     rv_outer = va_cls.methods['rows_validator']
     rvs = [f for f in repo.functions.values() if f.parent is rv_outer and f.is_generator]
